@@ -347,6 +347,13 @@ def plan_C02(ctx):
                          "(verdict, offset; values when definitive, full object state when suspended => all 2^(n-1) "
                          "schedules by induction).  non-trivial = input with >= 1 suspension and a definitive verdict.")
     scalar_models(ctx)
+    # liveness on small instances (beyond the listed properties): Stream!Progress under weak fairness of Call -- model only
+    for k in ("uint", "clen", "callid", "cseq"):
+        r = vlib.run_tlc("MC_Scalar", "MC_Scalar_live_%s.cfg" % k, workers=4, timeout=900)
+        if not r["ok"]: raise Machinery("TLC failed on MC_Scalar_live_%s (liveness of the protocol model):\n%s" % (k, r["tail"]))
+        ctx.states += r["distinct"]; ctx.transitions += r["generated"]
+        ctx.tlc_runs.append(dict(module="MC_Scalar", cfg="MC_Scalar_live_%s.cfg (FairSpec, PROPERTIES Progress MonotoneCont; model only)" % k, states=r["distinct"], records=0, tlc_wall_s=round(r["wall"], 1)))
+        shutil.rmtree(r["dir"], ignore_errors=True)
     msg_models(ctx, ["hdr", "hdrv", "hdrna"])
     sub_models(ctx, 4)
     sub_traces(ctx, 700 if ctx.quick else 4000)
